@@ -31,6 +31,10 @@ def chk_collect(case, acc, seed):
         e = np.zeros(nw * shape[0] * shape[1]); e[k] = 1
         cubes.append(('e%d' % k, e.reshape((nw,) + shape)))
     cubes.append(('dense', rm.generic_real((nw,) + shape, seed, tag=1, lo=0, hi=50)))
+    counts = np.floor(rm.generic_real((nw,) + shape, seed, tag=2, lo=1, hi=60))
+    cubes.append(('counts-int64', counts.astype(np.int64)))          # photon counts held in integer arrays
+    cubes.append(('counts-uint16', counts.astype(np.uint16)))
+    cubes.append(('counts-float32', counts.astype(np.float32)))
     for name, img in cubes:
         sub = dict(case, payload=name)
         exp = sum(img[i] * qv[i] for i in range(nw))
@@ -49,7 +53,7 @@ def chk_collect(case, acc, seed):
             if rm.maxerr(got, exp) > 1e-12:
                 acc.violation('collect:2d-image', sub, '2-D image handled differently from a one-slice cube')
         # spectrum efficiency in any unit, sampled at wavelengths given in any unit
-        if name == 'dense' or name == 'e0':
+        if name in ('dense', 'e0', 'counts-int64'):
             for su in TO_NM:
                 for wu in TO_NM:
                     grid_nm = np.array([400.0, 450.0, 500.0, 550.0, 600.0, 650.0, 700.0])
@@ -219,6 +223,12 @@ def chk_adc(case, acc, seed):
     import lentil
     gname, cap, dt, warn, fdt = case['gain'], case['cap'], case['dtype'], case['warn'], case['frame_dtype']
     frame = np.array(FRAME_EQ if case.get('frame') == 'max==capacity' else FRAME, dtype=float)
+    if case.get('frame') == 'one-row':
+        frame = frame.reshape(1, -1)[:, :7]         # a frame with a single row: per-pixel gains have a singleton axis
+    elif case.get('frame') == 'one-col':
+        frame = frame.reshape(-1, 1)[:7, :]
+    elif case.get('frame') == 'one-pixel':
+        frame = frame[1:2, 1:2]
     if fdt == 'int':
         frame = np.floor(frame).astype(np.int64)
     shape = frame.shape
@@ -340,6 +350,10 @@ def t_other(arg, acc):
                             if cap == 100:
                                 chk_adc({'kind': 'adc', 'gain': gname, 'cap': cap, 'dtype': dt, 'warn': warn, 'frame_dtype': fdt,
                                          'frame': 'max==capacity'}, acc, seed)
+                                if dt in (None, 'int') and not warn:
+                                    for fr in ('one-row', 'one-col', 'one-pixel'):
+                                        chk_adc({'kind': 'adc', 'gain': gname, 'cap': cap, 'dtype': dt, 'warn': warn, 'frame_dtype': fdt, 'frame': fr}, acc, seed)
+                                        acc.cls('adc:singleton-axis')
         for gname in ('scalar', 'scalar1', 'poly1', 'poly2', 'poly3'):
             for cap in (None, 100, 100.5):
                 chk_adc_monotone({'kind': 'adcmono', 'gain': gname, 'cap': cap}, acc, seed)
@@ -365,7 +379,7 @@ def run(tier, seed, acc, procs=None):
         'assumptions': ['dyadic electron counts and gains: every intermediate is exact in binary floating point',
                         'pattern strings are read row-major'],
         'require': {'bayer:k=2': 1000, 'bayer:k=3': 1000, 'bayer:os=3': 500, 'bayer:os=4': 500, 'adc:polynomial': 50, 'adc:per-pixel': 20,
-                    'adc:per-pixel-polynomial': 20, 'adc:scalar': 20, 'collect': 9, 'collect:edited-spectrum': 50},
+                    'adc:per-pixel-polynomial': 20, 'adc:scalar': 20, 'collect': 9, 'collect:edited-spectrum': 50, 'adc:singleton-axis': 50},
     }
 
 
